@@ -801,7 +801,73 @@ func (h *vingH) cleanup(root string, o vingObs) {
 	_ = os.RemoveAll(root)
 }
 
+// vingSnap lists a directory tree with sizes and content hashes
+func vingSnap(root string) string {
+	var out []string
+	_ = filepath.Walk(root, func(p string, info os.FileInfo, err error) error {
+		if err != nil {
+			return nil
+		}
+		rel, _ := filepath.Rel(root, p)
+		if info.IsDir() {
+			out = append(out, rel+"/")
+			return nil
+		}
+		b, _ := os.ReadFile(p)
+		out = append(out, fmt.Sprintf("%s %d %s", rel, info.Size(), digest.FromBytes(b).Encoded()[:16]))
+		return nil
+	})
+	sort.Strings(out)
+	return strings.Join(out, "\n")
+}
+
+// roProbe (C14): the same layout opened by a read-only directory store and by a memory store over the directory;
+// the conversion may fail or succeed in memory, the directory must stay as it was
+func (h *vingH) roProbe() {
+	for _, kind := range []string{"dir-ro", "mem"} {
+		root, err := h.materialise(nil, false)
+		if err != nil {
+			return
+		}
+		before := vingSnap(root)
+		done := make(chan struct{})
+		go func() {
+			defer close(done)
+			conf := config.Config{Storage: config.ConfigStorage{RootDir: root, GC: config.ConfigGC{Frequency: -1, GracePeriod: -1}}}
+			var s Store
+			if kind == "mem" {
+				conf.Storage.StoreType = config.StoreMem
+				conf.SetDefaults()
+				s = NewMem(conf)
+			} else {
+				ro := true
+				conf.Storage.StoreType = config.StoreDir
+				conf.Storage.ReadOnly = &ro
+				conf.SetDefaults()
+				s = NewDir(conf)
+			}
+			if repo, err := s.RepoGet(context.Background(), "r"); err == nil {
+				_, _ = repo.IndexGet()
+				repo.Done()
+			}
+			_ = s.Close()
+		}()
+		select {
+		case <-done:
+		case <-time.After(5 * time.Second):
+			return // a hang is the business of the open under the watchdog; the directory is left to the goroutine
+		}
+		if after := vingSnap(root); after != before {
+			h.flag("C14.ro-open-changed", fmt.Sprintf("%s: the directory changed while it was opened and read", kind))
+		}
+		_ = os.RemoveAll(root)
+	}
+}
+
 func (h *vingH) doIngest(storeKind string) string {
+	if os.Getenv("VERIF_RO_PROBE") != "" && storeKind == "dir" {
+		h.roProbe()
+	}
 	root, err := h.materialise(nil, false)
 	if err != nil {
 		return "harness-error " + err.Error()
